@@ -273,7 +273,8 @@ class HeaderDict(DictMixin):
         return ret
 
     def setdefault(self, key, value):
-        return self._ts.dict.setdefault(key, _hval(value) if not isinstance(value, list) else value)
+        value = [_hval(v) for v in value] if isinstance(value, list) else _hval(value)
+        return self._ts.dict.setdefault(key, value)
 
     def append(self, key, value):
         d = self._ts.dict
